@@ -288,6 +288,16 @@ func (d *Dialer) DialContext(ctx context.Context, urlStr string, requestHeader h
 		})
 	}
 
+	// A proxy dialer may clear the connection deadline when its own
+	// negotiation is done (the SOCKS5 client does): arm it again so that the
+	// rest of the handshake runs under the handshake deadline.
+	if deadline, ok := ctx.Deadline(); ok && proxyURL != nil {
+		if err := netConn.SetDeadline(deadline); err != nil {
+			_ = netConn.Close()
+			return nil, nil, err
+		}
+	}
+
 	// Close the network connection when returning an error. The variable
 	// netConn is set to nil before the success return at the end of the
 	// function.
